@@ -127,6 +127,10 @@ def _meta_for(case, rng, nch):
     return dict(medium_index=mi, illum_wavelen=wla, illum_polarization=pola, noise_sd=nsa), {"illum_wavelen": wl, "noise_sd": ns, "illum_polarization": pol}
 
 
+_NAMES = ["K\u00fcgelchen", "5\u00b5m_bead", "\u7c92\u5b50 3", "bead no. 7", "yes", "null", "1e3", "~", "a: b", "it's", 'say "hi"', "#3", "- x", "caf\u00e9 \u2603",
+          " padded ", "100%", "{x}", "[1]", "True", "2024-01-01"]
+
+
 def _make_image(case, rng, dtype="float64", positive=False):
     from holopy.core.metadata import data_grid, update_metadata
     nx, ny = case["shape"]
@@ -141,7 +145,11 @@ def _make_image(case, rng, dtype="float64", positive=False):
     else:
         a = rng.integers(-1000, 1000, size=shp).astype(dtype)
     sp = (float(rng.uniform(0.05, 0.5)), float(rng.uniform(0.05, 0.5)))
-    im = data_grid(a, spacing=sp, name=("img_%d" % int(rng.integers(0, 99))) if case.get("named", True) else None,
+    nm = "img_%d" % int(rng.integers(0, 99))
+    if rng.random() < 0.4:
+        # names people give their images: accents, units, spaces, text a yaml reader takes for something else
+        nm = _NAMES[int(rng.integers(0, len(_NAMES)))]
+    im = data_grid(a, spacing=sp, name=nm if case.get("named", True) else None,
                    extra_dims={"illumination": case.get("labels", LABELS)[:nch]} if nch else None)
     if not case.get("named", True):
         im.name = None
